@@ -53,10 +53,10 @@ Definition c06_encode_spec (toks : list (list N)) : list (list N) :=
   end.
 
 (* ---------------- C11 / C09: ICMP ---------------- *)
-From TT Require Import Model.Icmp Generated.Consts.
+From TT Require Import Model.Icmp Generated.Consts Generated.IcmpWaiterFacts.
 
 Definition c11_checksum (toks : list (list N)) : list (list N) :=
-  res_toks (rfc1071_checksum (match toks with b :: _ => b | [] => [] end)) (fun c => [[c]]).
+  res_toks (rfc1071_checksum (match toks with b :: _ => b | [] => [] end)) (fun c => [[0; c]]).
 
 Definition c11_serialize_echo (toks : list (list N)) : list (list N) :=
   match toks with
@@ -107,7 +107,8 @@ Definition c11_parse_message (toks : list (list N)) : list (list N) :=
 Definition c11_echo_eq (toks : list (list N)) : list (list N) :=
   match toks with
   | [i1; s1] :: d1 :: [i2; s2] :: rest =>
-    [[if echo_eq (i1, s1, d1) (i2, s2, match rest with d :: _ => d | [] => [] end) then 1 else 0]]
+    let k2 := (i2, s2, match rest with d :: _ => d | [] => [] end) in
+    [[if echo_eq (i1, s1, d1) k2 then 1 else 0; if waiter_found ECHO_HASH_OF_ID_AND_SEQ (i1, s1, d1) k2 then 1 else 0]]
   | _ => REJECT_TOK
   end.
 
@@ -316,8 +317,9 @@ Definition outcome_toks (o : s_outcome) : list N :=
 Definition c15_connect (toks : list (list N)) : list (list N) :=
   match toks with
   | [ak; dk; port] :: a :: b :: dest :: segs =>
-    let '(em, o) := connect (c15_auth ak a b) (if dk =? 3 then DDomain dest else DIp dest) port (concat segs) in
-    [outcome_toks o; concat (map em_bytes em)]
+    let d := if dk =? 3 then DDomain dest else DIp dest in
+    let '(em, o) := connect (c15_auth ak a b) d port (concat segs) in
+    [outcome_toks o; concat (map em_bytes em); connect_rest (c15_auth ak a b) d port (concat segs)]
   | _ => REJECT_TOK
   end.
 
@@ -628,6 +630,36 @@ Definition c07_run (toks : list (list N)) : list (list N) :=
   | _ => REJECT_TOK
   end.
 
+(* C07: a socket error on the reading side of one flow, a later datagram on the same pair, a bystander
+   flow, then everything idle for more than two timeouts.
+   in: [T].  out: [q1 sent on; later datagram sent on; its reply labelled for the client; bystander; alive;
+                   sockets left; the failed flow's socket released] *)
+Definition c07_read_error (toks : list (list N)) : list (list N) :=
+  match toks with
+  | [T] :: _ =>
+    let m := (1, 10) in let by_ := (2, 20) in
+    let is_to_peer (o : list uout) := match o with [ToPeer _ _] => 1 | _ => 0 end in
+    let '(s1, o_b1) := ustep T uinit (ClientDgram by_ 0 false true true) in
+    let '(s2, o_q1) := ustep T s1 (ClientDgram m 0 false true true) in
+    let '(s3, _) := ustep T s2 (PeerDgram (reversed m) 10) in
+    let '(s4, _) := ustep T s3 (SocketErr m) in
+    let sock1 := lookup m (fwd s2) in
+    let '(s5, o_q3) := ustep T s4 (ClientDgram m 200 false true true) in
+    let '(s6, o_r3) := ustep T s5 (PeerDgram (reversed m) 210) in
+    let '(s7, o_b2) := ustep T s6 (ClientDgram by_ 300 false true true) in
+    let '(s8, _) := ustep T s7 (Tick (300 + 2 * T + 400)) in
+    [[is_to_peer o_q1; is_to_peer o_q3;
+      match o_r3 with [ToClient k] => if meta_eqb k (reversed m) then 1 else 0 | _ => 0 end;
+      N.min (is_to_peer o_b1) (is_to_peer o_b2);
+      if terminated s8 then 0 else 1;
+      lenN (fwd s8);
+      match sock1 with
+      | Some k => if existsb (fun kv => snd kv =? k) (fwd s8) then 0 else 1
+      | None => 1
+      end]]
+  | _ => REJECT_TOK
+  end.
+
 (* C13: TlsHostsSettings::validate through both routes.
    in : [bad_group; bad_index] main rp ping speed   (bad_group 0 = every certificate loads)
    out: [builder refused; Core::new refused] *)
@@ -808,7 +840,7 @@ Definition c18_get (hs : list (list N * list N)) (name : list N) : option (list 
 
 Definition c18_session (toks : list (list N)) : list (list N) :=
   match toks with
-  | [chan; http2; _; rp; st; _; _] :: [kind] :: path :: hdrs :: _ =>
+  | (chan :: http2 :: _ :: rp :: st :: _) :: [kind] :: path :: hdrs :: _ =>
     let hs := c18_headers (length hdrs) hdrs in
     let q := {| q_method := if kind =? 6 then 0 else if kind =? 7 then 1 else 2;
                 q_path := path;
@@ -936,5 +968,26 @@ Definition c20_scrub (toks : list (list N)) : list (list N) :=
     let hs := c20_group (length hdrs) (c18_headers (length hdrs) hdrs) in
     [c20_flat (scrub_headers [] hs); Scrub.scrub_sni sni;
      source_debug (if pb =? 1 then Scrub.SBasic [] else Scrub.SSni [])]
+  | _ => REJECT_TOK
+  end.
+
+From TT Require Import Generated.TimeoutFacts Model.Listener.
+(* C14: establishment. in: [http2; est; tcp_T] against a peer that never answers.  out: [status; when] *)
+Definition c14_establish (toks : list (list N)) : list (list N) :=
+  match toks with
+  | [_; est; other] :: _ =>
+    match establish CONNECT_UNDER_ESTABLISHMENT_TIMEOUT est other None with
+    | EFailed t => if t <=? 3 * est + 500 then [[502; 1]] else [[0; 2]]
+    | EConnected _ => [[200; 0]]
+    end
+  | _ => REJECT_TOK
+  end.
+
+(* C14: the session-level timer. in: [http2; listener_T; tcp_T; period; rounds].  out: [status; echoed; closed_early; idle_closed] *)
+Definition c14_session (toks : list (list N)) : list (list N) :=
+  match toks with
+  | [_; lt; _; period; rounds] :: _ =>
+    if LISTENER_TIMEOUT_SPARES_ACTIVE_SESSIONS then [[200; rounds; 0; 1]]
+    else let k := N.min rounds (lt / N.max period 1) in [[200; k; if k <? rounds then 1 else 0; 1]]
   | _ => REJECT_TOK
   end.
